@@ -69,7 +69,9 @@ CLAIM = dict(
          'info omitted and one info dict reused, arguments bit-identical afterwards, no aliasing, restart through the returned '
          'object); SCALES / DEGENERATE (single sample, mode size 1, d = 2, duplicates only, (w, lamb) * 2^k for k = -1000 .. 940 '
          'exactly invariant, y * 2^+-300: descent / shape / info in the search only - the normal equations are then numerically '
-         'singular, so no core-by-core correspondence). STIFF BUT FULL-RANK SLICE DESIGNS (interface vectors / data '
+         'singular, so no core-by-core correspondence). HISTORIES ON A SHARED INFO DICT (explicit and the module '
+         'default, als and als_func): after a converged call (small info[e]) a second call on other data with a threshold e >= that '
+         'value must give the result / nswp / stop of a fresh info dict; a, restart, b on one reused info dict (search). STIFF BUT FULL-RANK SLICE DESIGNS (interface vectors / data '
          'with a large common component plus O(1) variation, lamb 1e-6 .. 1e-10, badly balanced start): _optimize_core against the '
          'exact Qc minimiser by the exact rational objective gap, whole als in the search (last core, descent), asserted where the '
          'slice systems have cond <= 1e14 (measured on the unchanged tree: gap <= 6e-19 sum w y^2 there; beyond 1/eps the Gram '
@@ -1546,6 +1548,74 @@ def oracle_history_func(tn, c):
     return None
 
 
+def oracle_history_info(tn, c1, c2, f1, f2):
+    """HISTORY on a shared info dict (explicit and the module default), als and als_func: a first call that has converged
+    (small final info['e']) must not influence a second call on other data with an e threshold >= that value: result, nswp
+    and stop equal those of the same call with a fresh info dict.  Also a+b = a, restart, b on ONE reused info dict."""
+    def als1(c, Y0, info, **kw):
+        k = dict(I_trn=np.array(c['I'], dtype=int), y_trn=np.array([float(v) for v in c['y']]), Y0=[np.array(G, dtype=float) for G in Y0],
+                 lamb=float(c['lamb']), allow_skip_cores=True)
+        k.update(kw)
+        if info is not None:
+            k['info'] = info
+        with warnings.catch_warnings():
+            warnings.simplefilter('ignore')
+            return tn.als(**k)
+
+    def fun1(c, A0, info, **kw):
+        k = dict(X_trn=np.array(c['X'], dtype=float), y_trn=np.array(c['y'], dtype=float), A0=[np.array(G, dtype=float) for G in A0],
+                 a=c['a'], b=c['b'], lamb=float(c['lamb']))
+        k.update(kw)
+        if info is not None:
+            k['info'] = info
+        with warnings.catch_warnings():
+            warnings.simplefilter('ignore')
+            return tn.als_func(**k)
+
+    for name, run, ca, cb_, start in (('als', als1, c1, c2, 'Y0'), ('als_func', fun1, f1, f2, 'A0')):
+        try:
+            Yc = run(ca, ca[start], {}, nswp=8, e=None)                      # converge first
+            for mode in ('explicit', 'default'):
+                D = {} if mode == 'explicit' else None
+                probe = {}
+                run(ca, Yc, probe, nswp=2, e=None)
+                run(ca, Yc, D, nswp=2, e=None)                               # first call: ends with a small info['e']
+                old_e = float(probe['e'])
+                thr = max(2.0 * old_e, 1e-12)
+                fresh = {}
+                Yref = run(cb_, cb_[start], fresh, nswp=3, e=thr)
+                Y2 = run(cb_, cb_[start], D, nswp=3, e=thr)                  # second call on the SAME info dict, other data
+                ok, why = cores_close(Y2, Yref, 1e-12)
+                if not ok:
+                    return dict(what=f'{name}: a call on a reused info dict ({mode}) differs from the same call with a fresh info dict '
+                                     f'(the earlier call ended with e = {old_e:.3e}, this call has e = {thr:.3e})', got=why,
+                                fresh=[fresh.get('nswp'), fresh.get('stop')], routine=name, mode=mode)
+                if D is not None and (D.get('nswp') != fresh.get('nswp') or D.get('stop') != fresh.get('stop')):
+                    return dict(what=f'{name}: nswp / stop reported in a reused info dict differ from those of a fresh info dict',
+                                got=[D.get('nswp'), D.get('stop')], expected=[fresh.get('nswp'), fresh.get('stop')], routine=name)
+            # restart on ONE reused info dict, with an e threshold that the converged first leg meets
+            D = {}
+            run(ca, Yc, D, nswp=2, e=None)
+            thr = max(2.0 * float(D['e']), 1e-12)
+            Ya = run(cb_, cb_[start], D, nswp=1, e=thr)
+            Yb = run(cb_, Ya, D, nswp=2, e=thr)
+            f1_, f2_ = {}, {}
+            Za = run(cb_, cb_[start], f1_, nswp=1, e=thr)
+            Zb = run(cb_, Za, f2_, nswp=2, e=thr)
+            ok, why = cores_close(Yb, Zb, 1e-12)
+            if not ok or D.get('nswp') != f2_.get('nswp') or D.get('stop') != f2_.get('stop'):
+                return dict(what=f'{name}: a sweeps, restart, b sweeps on one reused info dict differs from the same two calls with fresh '
+                                 'info dicts', got=why, info=[D.get('nswp'), D.get('stop')], fresh=[f2_.get('nswp'), f2_.get('stop')], routine=name)
+            if f2_.get('stop') == 'nswp' and f1_.get('stop') == 'nswp':
+                Zab = run(cb_, cb_[start], {}, nswp=3, e=thr)
+                ok, why = cores_close(Yb, Zab, 1e-12)
+                if not ok:
+                    return dict(what=f'{name}: 1+2 sweeps on one reused info dict differ from 3 sweeps', got=why, routine=name)
+        except Exception as ex:  # noqa
+            return dict(what=f'{name}: history on a shared info dict raised: ' + repr(ex)[:200], routine=name)
+    return None
+
+
 def oracle_forms_func(tn, c):
     """argument forms of als_func: X / y / A0 containers and dtypes, a / b scalars, fh as one function or a list"""
     ref = run_als_func_cheb(tn, c, nswp=2)
@@ -1907,6 +1977,14 @@ def search(R, ctx, deep, hints):
             push('als', jcase(c), dict(what='oracle raised: ' + repr(ex)[:200]))
     # cross-cutting families: argument forms, histories on reused objects, scales and degenerate shapes
     xr = C.Rng(4242 + ctx['seed'] % 1000)
+    # histories on a shared info dict (explicit and module default), als and als_func
+    for t in range(6 if deep else 2):
+        if len(fails) >= 5:
+            break
+        c1, c2 = gen_case(xr, family='generic', d=[3, 2][t % 2]), gen_case(xr, family='generic', d=[2, 3][t % 2])
+        f1, f2 = gen_cheb_case(xr, box=BOXES[t % len(BOXES)]), gen_cheb_case(xr, box=BOXES[(t + 3) % len(BOXES)])
+        n_eval += 1
+        push('history_info', dict(c1=jcase(c1), c2=jcase(c2), f1=jcheb(f1), f2=jcheb(f2)), oracle_history_info(tn, c1, c2, f1, f2))
     # stiff but full-rank slice designs (large offset / badly balanced start, small lamb)
     for t in range(30 if deep else 12):
         if len(fails) >= 5:
@@ -2031,6 +2109,11 @@ def replay(data):
     elif kind == 'func':
         c = dict(inp, lamb=Fraction(inp['lamb']))
         f = oracle_func(tn, c)
+    elif kind == 'history_info':
+        def cv(x):
+            return dict(x, lamb=Fraction(x['lamb']), w=[Fraction(v) for v in x['w']] if x.get('w') else None)
+        f = oracle_history_info(tn, cv(inp['c1']), cv(inp['c2']), dict(inp['f1'], lamb=Fraction(inp['f1']['lamb'])),
+                                dict(inp['f2'], lamb=Fraction(inp['f2']['lamb'])))
     elif kind == 'stiff':
         f = oracle_stiff(tn, inp)
     elif kind == 'flags':
